@@ -124,6 +124,46 @@ def run(ctx):
             d = maxdiff(ints(o), Cr) if not o.startswith('CRASH') else 2**32
             ctx.count((l, B, k, 'fftimage'))
             if d > 1: ctx.report('fft-image', 'FFT image of a TGSW sample converted back differs by %d units (k=%d,(l,B)=(%d,%d))' % (d, k, l, B), {'k': k, 'l': l, 'B': B, 'maxdiff': d})
+    # --- B2: the other entry points of the same arithmetic: tGswExternProduct (out of place), tGswMulByXaiMinusOne, tGswClear + tGswAddH
+    #     (coefficient and FFT domain), tLweAddMulRTo and the FFT-domain path tLweToFFTConvert / tLweFFTAddMulRTo / tLweFromFFTConvert
+    for (l, B) in ((3, 7), (2, 10)) + (((4, 8), (2, 16), (1, 1)) if thorough else ()):
+        for k in (1, 2):
+            tol = fft_tol(k, l, B)
+            Cr = [rng.randrange(-2**31, 2**31) for _ in range((k + 1) * l * (k + 1) * N)]
+            acc = [rng.randrange(-2**31, 2**31) for _ in range((k + 1) * N)]
+            base = '%d %d %d %d' % (k, N, l, B)
+            line0 = 'tgsw 0 %s %s %s' % (base, fmt(Cr), fmt(acc))
+            o6 = vlib.run_lines(exe, [line0.replace('tgsw 0', 'tgsw 6', 1)])[0]; mo = ints(vlib.run_model([line0], 'fast')[0]); ctx.count((l, B, k, 'externproduct'))
+            if o6.startswith('CRASH'): ctx.report('extprod-crash', 'tGswExternProduct: ' + o6[:80], {'case': line0[:3000]})
+            else:
+                v6 = ints(o6); d = maxdiff(v6[:-1], mo)
+                if v6[-1] != 1: ctx.report('extprod-input-modified', 'tGswExternProduct changed its input accumulator (k=%d (l,B)=(%d,%d))' % (k, l, B), {'case': line0[:200000], 'opcode': 6})
+                if d > 4 * tol: ctx.soft('correspondence:externproduct', 'tGswExternProduct (out of place) differs from the model external product by %d units (tolerance %d), k=%d (l,B)=(%d,%d)' % (d, 4 * tol, k, l, B), {'case': line0[:200000], 'opcode': 6, 'maxdiff': d})
+            a = rng.choice([1, N - 1, N, N + 1, 2 * N - 1, rng.randrange(1, 2 * N)])
+            o7 = vlib.run_lines(exe, ['tgsw 7 %s %s %d' % (base, fmt(Cr), a)])[0]; ctx.count((l, B, k, 'mulbyxai', a))
+            exp7 = []
+            for q in range((k + 1) * l * (k + 1)):
+                src = Cr[q * N:(q + 1) * N]
+                exp7 += [vlib.w32((src[i - a] if 0 <= i - a < N else -src[(i - a) % N] if -N <= i - a < 0 or N <= i - a else 0) - src[i]) for i in range(N)] if a < N else \
+                        [vlib.w32((-src[i - (a - N)] if i - (a - N) >= 0 else src[(i - (a - N)) % N]) - src[i]) for i in range(N)]
+            if o7.startswith('CRASH') or ints(o7) != exp7:
+                ctx.report('tgsw-mulbyxai', 'tGswMulByXaiMinusOne a=%d differs from (X^a - 1) applied to every polynomial of every row (k=%d (l,B)=(%d,%d))' % (a, k, l, B), {'case': ('tgsw 7 %s %s %d' % (base, fmt(Cr), a))[:200000]})
+            gl = 'tgsw 3 %s %s 1' % (base, fmt([0] * len(Cr)))
+            want = ints(vlib.run_model([gl], 'fast')[0])
+            for opc, nm, t8 in ((8, 'tGswClear + tGswAddH', 0), (9, 'tGswFFTClear + tGswFFTAddH', 1)):
+                o = vlib.run_lines(exe, ['tgsw %d %s %s' % (opc, base, fmt(Cr))])[0]; ctx.count((l, B, k, nm))
+                d = maxdiff(ints(o), want) if not o.startswith('CRASH') else 2**32
+                if d > t8: ctx.report('gadget-addh', '%s differs from the gadget of the message 1 by %d units (k=%d (l,B)=(%d,%d))' % (nm, d, k, l, B), {'k': k, 'l': l, 'B': B, 'opcode': opc, 'maxdiff': d})
+            ip = [rng.randrange(-(1 << (B - 1)), 1 << (B - 1)) for _ in range(N)]
+            row0 = Cr[:(k + 1) * N]
+            xl = ['xmul %d %s %s' % (N, fmt(ip), fmt(row0[i * N:(i + 1) * N])) for i in range(k + 1)]
+            prod = sum((ints(o) for o in vlib.run_lines(exe, xl)), [])
+            expa = [vlib.w32(x + y) for x, y in zip(acc, prod)]
+            for opc, nm in ((10, 'tLweAddMulRTo'), (11, 'tLweToFFTConvert / tLweFFTAddMulRTo / tLweFromFFTConvert')):
+                o = vlib.run_lines(exe, ['tgsw %d %s %s %s %s' % (opc, base, fmt(Cr), fmt(acc), fmt(ip))])[0]; ctx.count((l, B, k, nm))
+                d = maxdiff(ints(o), expa) if not o.startswith('CRASH') else 2**32
+                worst[(nm[:13], l, B, k)] = d
+                if d > max(4, 1 << max(0, B - 7)): ctx.report('tlwe-addmulr', '%s: acc + p * sample differs from the exact ring product by %d units (k=%d, |p| < 2^%d)' % (nm, d, k, B - 1), {'k': k, 'l': l, 'B': B, 'opcode': opc, 'maxdiff': d})
     # --- C: library-encrypted rows and blind rotation
     # (n, k, l, Bgbit, row noise stdev in units of 2^-40): the default sets' 2^-25 = 32768 and 9.6e-9 ~ 10555, plus a noiseless and a noisy one
     confs = [(3, 1, 3, 7, 32768), (2, 1, 2, 10, 10555), (4, 2, 2, 10, 0)] if not thorough else [(8, 1, 3, 7, 32768), (4, 1, 2, 10, 10555), (6, 2, 2, 10, 0), (16, 1, 4, 8, 32768), (3, 1, 2, 16, 64), (5, 2, 3, 7, 262144)]
